@@ -60,6 +60,8 @@ def register(reg):
     register_generic_samplers(reg)
     register_grid(reg)
     register_polygon_sampling(reg)
+    register_line_samplers(reg)
+    register_grid_membership(reg)
 
 
 # ===================================================================================================
@@ -1187,4 +1189,694 @@ def register_polygon_sampling(reg):
             properties=("C03",),
         ),
         key=f"{GEO}:triangulatePolygon[catalogue]",
+    )
+
+
+# ===================================================================================================
+# PolylineRegion / PathRegion: segment table, cumulative lengths, sampler (extension)
+#
+# Oracle (property statement): a point drawn on a polyline lies on it (all three coordinates: a PolylineRegion lies at
+# z = 0, a PathRegion is a 3-D chain) and draws are uniform with respect to length: the segment is drawn with
+# probability proportional to its Euclidean length (random.choices over the segments with the prefix sums of the
+# lengths, A3) and the point is interpolated uniformly on the drawn segment (point = A + t (B - A), t drawn uniformly
+# in [0, 1]).  Membership is stated in parametric form (the point is a convex combination of the end points of a
+# segment of the chain), as for sectors (polar form) and triangles (convex combination).
+
+
+def _hyp(eng, name, sqsum):
+    d = eng.fresh_real(name)
+    eng.assume(sv_and(compare(">=", d, 0), compare("==", sq(d), sqsum)))
+    return d
+
+
+def _lit(v):
+    """Constant inputs (lists) come back from a counter-model as their repr."""
+    import ast
+
+    return ast.literal_eval(v) if isinstance(v, str) else v
+
+
+def _is_vec(v):
+    return isinstance(v, PObj) and "coordinates" in v.fields
+
+
+def _decided_index(eng, idx, n):
+    return [i for i in range(n) if not eng.feasible(tobool(sv_not(compare("==", idx, i))))]
+
+
+def _spy_rng(random, log):
+    """Wrap random.choices / random.random / random.uniform so that their arguments and results are recorded (replay drivers)."""
+    real = dict(choices=random.choices, random=random.random, uniform=random.uniform)
+
+    def choices(population, weights=None, *, cum_weights=None, k=1):
+        r = real["choices"](population, weights, cum_weights=cum_weights, k=k)
+        log.append(("choices", list(population), None if weights is None else list(weights), None if cum_weights is None else list(cum_weights), r))
+        return r
+
+    def rnd():
+        r = real["random"]()
+        log.append(("random", r))
+        return r
+
+    def uniform(a, b):
+        r = real["uniform"](a, b)
+        log.append(("uniform", a, b, r))
+        return r
+
+    random.choices, random.random, random.uniform = choices, rnd, uniform
+
+    def restore():
+        random.choices, random.random, random.uniform = real["choices"], real["random"], real["uniform"]
+
+    return restore
+
+
+def _check_real_line_sampler(R, segs3, name, draws=40, seed=11):
+    """The REAL sampler of a PolylineRegion / PathRegion `R` whose segments (pairs of 3-D end points, in the order of the
+    chain) are `segs3`: weights of the segment draw, interpolation, membership.  -> None | text."""
+    import itertools
+    import random
+
+    lens = [math.dist(a, b) for a, b in segs3]
+    pref = list(itertools.accumulate(lens))
+    tol = 1e-9 * max(1.0, pref[-1])
+    random.seed(seed)
+    for _ in range(draws):
+        log = []
+        restore = _spy_rng(random, log)
+        try:
+            pt = R.uniformPointInner()
+        finally:
+            restore()
+        ch = [e for e in log if e[0] == "choices"]
+        us = [e for e in log if e[0] in ("random", "uniform")]
+        if len(ch) != 1 or len(us) != 1:
+            return f"{name}: expected one random.choices and one interpolation draw, observed {[e[0] for e in log]}"
+        _, pop, w, cw, res = ch[0]
+        if len(pop) != len(segs3):
+            return f"{name}: {len(segs3)} segments but the population of the segment draw has {len(pop)} entries"
+        eff = list(cw) if cw is not None else list(itertools.accumulate(w if w is not None else [1] * len(pop)))
+        if len(eff) != len(pref) or any(abs(a - b) > tol for a, b in zip(eff, pref)):
+            return f"{name}: segment lengths {[round(x, 6) for x in lens]} (prefix sums {[round(x, 6) for x in pref]}) but the segment is drawn with cumulative weights {[round(float(x), 6) for x in eff]}: not proportional to length"
+        k = [i for i, s in enumerate(pop) if s is res[0]]
+        if len(k) != 1:
+            return f"{name}: the drawn segment is not one entry of the population"
+        a, b = segs3[k[0]]
+        t = us[0][-1]
+        if us[0][0] == "uniform" and (us[0][1], us[0][2]) != (0, 1):
+            return f"{name}: interpolation parameter drawn with uniform({us[0][1]}, {us[0][2]}) instead of over [0, 1]"
+        want = tuple(a[c] + t * (b[c] - a[c]) for c in range(3))
+        got = tuple(float(x) for x in pt)
+        if any(abs(g - w_) > 1e-9 * max(1.0, abs(w_)) for g, w_ in zip(got, want)):
+            return f"{name}: segment {k[0]} = {a} -> {b} drawn with interpolation parameter t = {t:.6g}: returned {tuple(round(x, 6) for x in got)}, the point of the segment at t is {tuple(round(x, 6) for x in want)}"
+        # membership in the chain, independently of the parametrisation
+        dmin = min(_dist_point_segment(got, a_, b_) for a_, b_ in segs3)
+        if dmin > 1e-7 * max(1.0, pref[-1]):
+            return f"{name}: drew {tuple(round(x, 6) for x in got)}, which is {dmin:.4g} away from the chain"
+    return None
+
+
+def _dist_point_segment(p, a, b):
+    ab = [b[i] - a[i] for i in range(3)]
+    ap = [p[i] - a[i] for i in range(3)]
+    L2 = sum(x * x for x in ab)
+    t = 0.0 if L2 == 0 else max(0.0, min(1.0, sum(x * y for x, y in zip(ab, ap)) / L2))
+    return math.dist(p, [a[i] + t * ab[i] for i in range(3)])
+
+
+LINE_CATALOGUE = [
+    ("two unequal segments", [(0, 0), (1, 0), (1, 5)]),
+    ("three segments, short-long-short", [(0, 0), (0.5, 0), (0.5, 10), (1.5, 10)]),
+    ("one diagonal segment", [(-2, -1), (4, 7)]),
+    ("zig-zag", [(0, 0), (3, 4), (6, 0), (9, 4)]),
+]
+
+
+def register_line_samplers(reg):
+    reg.models[f"{GEO}:headingOfSegment"] = lambda I, a, b: I.eng.fresh_real("headingOfSegment")
+    reg.trust("headingOfSegment", "stub: the preferred heading attached to a point drawn on a PolylineRegion (direction of its segment) is an unconstrained number: orientation is not part of the membership / uniformity law")
+
+    # ---------------------------------------------------------------- PolylineRegion.__init__ (points arm and LineString arm)
+    def setup_init(I, env):
+        eng = I.eng
+        arm = ["points", "polyline"][eng.choose(2, "points / polyline argument")]
+        n = 2 + eng.choose(3, "number of vertices: 2 / 3 / 4")
+        eng.input_syms.append(("arm", C.Const(None), arm))
+        eng.input_syms.append(("n", C.Const(None), n))
+        pts = [(eng.fresh_real(f"p{i}.x"), eng.fresh_real(f"p{i}.y")) for i in range(n)]
+        for i, p in enumerate(pts):
+            eng.input_syms.append((f"p{i}", C.TupleOf(C.Real(), C.Real()), p))
+        S = PObj(RC("PolylineRegion"), tag="self")
+        env.vars.update(self=S, orientation=None, name=None, _pts=pts, _arm=arm)
+        if arm == "points":
+            env.vars.update(points=PList([p for p in pts]), polyline=None)
+        else:
+            env.vars.update(points=None, polyline=MS.line_geom(I, [p for p in pts]))
+
+    def post_init(I, env, outcome):
+        eng = I.eng
+        oname = "regions.PolylineRegion.__init__"
+        if outcome[0] != "return":
+            return
+        S, pts, arm = env.vars["self"], env.vars["_pts"], env.vars["_arm"]
+        n = len(pts)
+        segs = S.fields.get("segments")
+        segs = list(I.iterate(segs)) if isinstance(segs, (PList, tuple, list)) else None
+        ok = segs is not None and len(segs) == n - 1 and all(isinstance(s, tuple) and len(s) == 2 and all(isinstance(e, tuple) and len(e) >= 2 for e in s) for s in segs)
+        eng.check(f"{oname}#ensures.one_segment_per_consecutive_pair_of_vertices", ok)
+        if not ok:
+            return
+        eng.check(f"{oname}#ensures.segment_i_joins_vertex_i_to_vertex_i_plus_1", sv_and(*[compare("==", segs[i][e][c], pts[i + e][c]) for i in range(n - 1) for e in (0, 1) for c in (0, 1)]))
+        eng.check(f"{oname}#ensures.segments_lie_at_z_0", sv_and(*[compare("==", e[2], 0) for s in segs for e in s if len(e) > 2]))
+        cum = S.fields.get("cumulativeLengths")
+        cum = list(I.iterate(cum)) if isinstance(cum, (PList, tuple, list)) else None
+        okc = cum is not None and len(cum) == n - 1
+        eng.check(f"{oname}#ensures.one_cumulative_length_per_segment", okc)
+        if okc:
+            prev = 0
+            acc = []
+            for i in range(n - 1):
+                d = arith("-", cum[i], prev)
+                dx, dy = arith("-", pts[i][0], pts[i + 1][0]), arith("-", pts[i][1], pts[i + 1][1])
+                acc.append(sv_and(compare(">=", d, 0), compare("==", sq(d), arith("+", sq(dx), sq(dy)))))
+                prev = cum[i]
+            eng.check(f"{oname}#ensures.cumulative_lengths_are_the_prefix_sums_of_the_euclidean_segment_lengths", sv_and(*acc))
+        ls = S.fields.get("lineString")
+        okl = MS.is_geom(ls) and ls.fields.get("_kind") == "LineString" and isinstance(ls.fields.get("coords"), tuple) and len(ls.fields["coords"]) == n
+        eng.check(f"{oname}#ensures.lineString_is_the_chain_through_the_vertices", okl and sv_and(*[compare("==", ls.fields["coords"][i][c], pts[i][c]) for i in range(n) for c in (0, 1)]))
+        pf = S.fields.get("points")
+        okp = isinstance(pf, tuple) and len(pf) == n and all(isinstance(p, tuple) and len(p) == 3 for p in pf)
+        eng.check(f"{oname}#ensures.points_are_the_vertices_at_z_0", okp and sv_and(*[compare("==", pf[i][c], (pts[i] + (0,))[c]) for i in range(n) for c in range(3)]))
+
+    def replay_init(inputs, clause):
+        import warnings
+
+        warnings.filterwarnings("ignore")
+        import itertools
+
+        import shapely.geometry
+
+        from scenic.core.regions import PolylineRegion
+
+        cases = list(LINE_CATALOGUE)
+        try:
+            n = int(inputs.get("n", 0))
+            mine = [tuple(float(x) for x in inputs[f"p{i}"]) for i in range(n)]
+            if n >= 2 and all(math.dist(a, b) > 1e-9 for a, b in zip(mine, mine[1:])):
+                cases.insert(0, ("counter-model", mine))
+        except Exception:
+            pass
+        for name, pts in cases:
+            for arm in ("points", "polyline"):
+                R = PolylineRegion(points=pts) if arm == "points" else PolylineRegion(polyline=shapely.geometry.LineString(pts))
+                what = f"PolylineRegion({arm}={pts})"
+                if len(R.segments) != len(pts) - 1:
+                    return f"{what}: {len(R.segments)} segments for {len(pts)} vertices"
+                for i, (a, b) in enumerate(R.segments):
+                    if tuple(a[:2]) != tuple(map(float, pts[i])) or tuple(b[:2]) != tuple(map(float, pts[i + 1])):
+                        return f"{what}: segment {i} is {a} -> {b}, expected {pts[i]} -> {pts[i + 1]}"
+                pref = list(itertools.accumulate(math.dist(a, b) for a, b in zip(pts, pts[1:])))
+                if len(R.cumulativeLengths) != len(pref) or any(abs(x - y) > 1e-9 * max(1, y) for x, y in zip(R.cumulativeLengths, pref)):
+                    return f"{what}: cumulativeLengths = {list(R.cumulativeLengths)}, prefix sums of the segment lengths = {pref}"
+                if [tuple(map(float, p)) for p in R.points] != [tuple(map(float, p)) + (0.0,) for p in pts]:
+                    return f"{what}: points = {R.points}"
+        return None
+
+    reg.add(
+        C.Contract(
+            f"{RG}:PolylineRegion.__init__",
+            params=dict(self=C.Const(None), points=C.Const(None), polyline=C.Const(None), orientation=C.Const(None), name=C.Const(None)),
+            setup=setup_init,
+            post=post_init,
+            raises=[C.Raises("ValueError", mode="may")],
+            inline_all=True,
+            replay=replay_init,
+            bounded=True,
+            note="bounded: one chain of 2..4 vertices (symbolic coordinates), given as points or as a LineString; segmentsOf (LineString arm) inlined; the MultiLineString arm is covered by segmentsOf[multi]",
+            properties=("C03",),
+        )
+    )
+
+    # ---------------------------------------------------------------- PolylineRegion.segmentsOf on a MultiLineString
+    def setup_seg(I, env):
+        eng = I.eng
+        sizes = [(2, 2), (2, 3), (3, 2)][eng.choose(3, "vertices of the two chains")]
+        eng.input_syms.append(("sizes", C.Const(None), sizes))
+        chains = [[(eng.fresh_real(f"c{k}.p{i}.x"), eng.fresh_real(f"c{k}.p{i}.y")) for i in range(m)] for k, m in enumerate(sizes)]
+        for k, ch in enumerate(chains):
+            for i, p in enumerate(ch):
+                eng.input_syms.append((f"c{k}.p{i}", C.TupleOf(C.Real(), C.Real()), p))
+        lines = [MS.line_geom(I, ch) for ch in chains]
+        multi = MS.g_union(I, lines)
+        multi.fields["_kind"] = "MultiLineString"
+        multi.fields["geoms"] = PList(lines)
+        env.vars.update(cls=RC("PolylineRegion"), lineString=multi, _chains=chains)
+
+    def post_seg(I, env, outcome):
+        eng = I.eng
+        oname = "regions.PolylineRegion.segmentsOf"
+        if outcome[0] != "return":
+            return
+        chains = env.vars["_chains"]
+        want = [(ch[i], ch[i + 1]) for ch in chains for i in range(len(ch) - 1)]
+        segs = list(I.iterate(outcome[1])) if isinstance(outcome[1], (PList, tuple, list)) else None
+        ok = segs is not None and len(segs) == len(want) and all(isinstance(s, tuple) and len(s) == 2 and all(isinstance(e, tuple) and len(e) >= 2 for e in s) for s in segs)
+        eng.check(f"{oname}#ensures.segments_of_every_chain_in_order_and_no_segment_between_chains", ok and sv_and(*[compare("==", s[e][c], w[e][c]) for s, w in zip(segs, want) for e in (0, 1) for c in (0, 1)]))
+
+    def replay_seg(inputs, clause):
+        import shapely.geometry
+
+        from scenic.core.regions import PolylineRegion
+
+        chains = [[(0, 0), (1, 0)], [(5, 5), (5, 7), (9, 7)]]
+        got = PolylineRegion.segmentsOf(shapely.geometry.MultiLineString(chains))
+        want = [((0.0, 0.0), (1.0, 0.0)), ((5.0, 5.0), (5.0, 7.0)), ((5.0, 7.0), (9.0, 7.0))]
+        if [(tuple(a[:2]), tuple(b[:2])) for a, b in got] != want:
+            return f"segmentsOf(MultiLineString({chains})) = {got}, expected {want}"
+        return None
+
+    reg.add(
+        C.Contract(
+            f"{RG}:PolylineRegion.segmentsOf",
+            params=dict(cls=C.Const(None), lineString=C.Const(None)),
+            setup=setup_seg,
+            post=post_seg,
+            raises=[C.Raises("ValueError", mode="may")],
+            inline_all=True,
+            replay=replay_seg,
+            bounded=True,
+            note="bounded: MultiLineString of two chains with 2+2 / 2+3 / 3+2 vertices (symbolic coordinates)",
+            properties=("C03",),
+        ),
+        key=f"{RG}:PolylineRegion.segmentsOf[multi]",
+    )
+
+    # ---------------------------------------------------------------- PolylineRegion.uniformPointInner
+    def setup_pl(I, env):
+        eng = I.eng
+        n = 1 + eng.choose(3, "number of segments: 1 / 2 / 3")
+        default = eng.choose(2, "orientation: along the polyline (default) / none") == 0
+        eng.input_syms.append(("n", C.Const(None), n + 1))
+        eng.input_syms.append(("default_orientation", C.Const(None), default))
+        pts = [(eng.fresh_real(f"p{i}.x"), eng.fresh_real(f"p{i}.y")) for i in range(n + 1)]
+        for i, p in enumerate(pts):
+            eng.input_syms.append((f"p{i}", C.TupleOf(C.Real(), C.Real()), p))
+        # class invariant established by __init__ (contract above): segment i joins vertex i to vertex i+1 (the first end point
+        # as a pair, the others with z = 0.0 appended), cumulativeLengths = prefix sums of the Euclidean lengths; a valid
+        # LineString has positive length
+        segs, cum, acc = [], [], 0
+        for i in range(n):
+            a = pts[i] if i == 0 else pts[i] + (0.0,)
+            segs.append((a, pts[i + 1] + (0.0,)))
+            ln = _hyp(eng, f"len{i}", arith("+", sq(arith("-", pts[i][0], pts[i + 1][0])), sq(arith("-", pts[i][1], pts[i + 1][1]))))
+            acc = arith("+", acc, ln)
+            cum.append(acc)
+        eng.assume(compare(">", acc, 0))
+        S = PObj(RC("PolylineRegion"), tag="self")
+        init_samplable(S)
+        S.fields.update(segments=PList(segs), cumulativeLengths=PList(cum), lineString=MS.line_geom(I, [p + (0.0,) for p in pts]), points=tuple(p + (0,) for p in pts), orientation=None, name=None, _usingDefaultOrientation=default)
+        env.vars.update(self=S, _segs=segs, _cum=cum, _pts=pts)
+
+    def post_pl(I, env, outcome):
+        eng = I.eng
+        oname = "regions.PolylineRegion.uniformPointInner"
+        if outcome[0] != "return":
+            return
+        segs, cum, pts, res = env.vars["_segs"], env.vars["_cum"], env.vars["_pts"], outcome[1]
+        tr = eng.rng_trace
+        ok = len(tr) == 2 and tr[0][0] == "choices" and tr[1][0] == "random"
+        eng.check(f"{oname}#rng.one_choices_then_one_random", ok)
+        if not ok:
+            return
+        pop, cw = tr[0][1]
+        eng.check(f"{oname}#rng.population_is_the_segments_in_order", len(pop) == len(segs) and all(a is b for a, b in zip(pop, segs)))
+        prev, acc = 0, []
+        for i in range(min(len(cw), len(segs))):
+            d = arith("-", cw[i], prev)
+            acc.append(sv_and(compare(">=", d, 0), compare("==", sq(d), arith("+", sq(arith("-", pts[i][0], pts[i + 1][0])), sq(arith("-", pts[i][1], pts[i + 1][1]))))))
+            prev = cw[i]
+        eng.check(f"{oname}#rng.segment_drawn_with_probability_proportional_to_its_length", len(cw) == len(segs) and sv_and(*acc))
+        chosen = _decided_index(eng, tr[0][2], len(segs))
+        eng.check(f"{oname}#rng.chosen_index_decided", len(chosen) == 1)
+        if len(chosen) != 1:
+            return
+        k, t = chosen[0], tr[1][2]
+        okv = _is_vec(res)
+        eng.check(f"{oname}#ensures.returns_a_vector", okv)
+        if not okv:
+            return
+        x, y, z = coords(res)
+        (ax, ay), (bx, by) = pts[k], pts[k + 1]
+        eng.check(f"{oname}#ensures.point_is_A_plus_t_times_B_minus_A_on_the_drawn_segment", sv_and(compare("==", x, arith("+", ax, arith("*", t, arith("-", bx, ax)))), compare("==", y, arith("+", ay, arith("*", t, arith("-", by, ay))))))
+        eng.check(f"{oname}#ensures.interpolation_parameter_is_the_uniform_draw_in_0_1", sv_and(compare("<=", 0, t), compare("<=", t, 1)))
+        eng.check(f"{oname}#ensures.point_at_the_height_of_the_region_z_0", compare("==", z, 0))
+
+    def replay_pl(inputs, clause):
+        import warnings
+
+        warnings.filterwarnings("ignore")
+        from scenic.core.regions import PolylineRegion
+
+        cases = list(LINE_CATALOGUE)
+        try:
+            n = int(inputs.get("n", 0))
+            mine = [tuple(float(x) for x in inputs[f"p{i}"]) for i in range(n)]
+            if n >= 2 and all(math.dist(a, b) > 1e-9 for a, b in zip(mine, mine[1:])):
+                cases.insert(0, ("counter-model", mine))
+        except Exception:
+            pass
+        for name, pts in cases:
+            for orient in (True, None):
+                R = PolylineRegion(points=pts, orientation=orient)
+                segs3 = [(tuple(map(float, a)) + (0.0,), tuple(map(float, b)) + (0.0,)) for a, b in zip(pts, pts[1:])]
+                r = _check_real_line_sampler(R, segs3, f"PolylineRegion(points={pts}{'' if orient else ', orientation=None'})")
+                if r:
+                    return r
+        return None
+
+    reg.add(
+        C.Contract(
+            f"{RG}:PolylineRegion.uniformPointInner",
+            params=dict(self=C.Const(None)),
+            setup=setup_pl,
+            post=post_pl,
+            inline_all=True,
+            replay=replay_pl,
+            bounded=True,
+            note="bounded: chain of 1..3 segments (symbolic vertices), with and without the default orientation; class invariant of __init__ (segments, cumulative lengths) assumed as established by the contract on __init__",
+            properties=("C03",),
+        )
+    )
+
+    # ---------------------------------------------------------------- PathRegion.uniformPointInner
+    def setup_pa(I, env):
+        eng = I.eng
+        shape = [("chain of 1 edge", [(0, 1)]), ("chain of 2 edges", [(0, 1), (1, 2)]), ("chain of 3 edges", [(0, 1), (1, 2), (2, 3)]), ("two chains sharing a vertex", [(0, 1), (2, 1)]), ("closed triangle", [(0, 1), (1, 2), (2, 0)])]
+        name, edges = shape[eng.choose(len(shape), "edge table")]
+        nv = 1 + max(max(e) for e in edges)
+        eng.input_syms.append(("edges", C.Const(None), [list(e) for e in edges]))
+        vs = [tuple(eng.fresh_real(f"v{i}.{c}") for c in "xyz") for i in range(nv)]
+        for i, v in enumerate(vs):
+            eng.input_syms.append((f"v{i}", C.TupleOf(C.Real(), C.Real(), C.Real()), v))
+        # class invariant established by __init__: edge_lengths[i] = |vert_to_vec[a] - vert_to_vec[b]| > 0 (zero-length segments are dropped)
+        lens = []
+        for i, (a, b) in enumerate(edges):
+            ln = _hyp(eng, f"len{i}", dist3sq(vs[a], vs[b]))
+            eng.assume(compare(">", ln, 0))
+            lens.append(ln)
+        S = PObj(RC("PathRegion"), tag="self")
+        init_samplable(S)
+        S.fields.update(vert_to_vec=tuple(make_vector(*v) for v in vs), edges=PList(list(edges)), edge_lengths=PList(lens), orientation=None, name=None, tolerance=1e-8, _usingDefaultOrientation=False)
+        env.vars.update(self=S, _edges=edges, _vs=vs, _lens=lens)
+
+    def post_pa(I, env, outcome):
+        eng = I.eng
+        oname = "regions.PathRegion.uniformPointInner"
+        if outcome[0] != "return":
+            return
+        edges, vs, res = env.vars["_edges"], env.vars["_vs"], outcome[1]
+        tr = eng.rng_trace
+        ok = len(tr) == 2 and tr[0][0] == "choices" and tr[1][0] == "uniform"
+        eng.check(f"{oname}#rng.one_choices_then_one_uniform", ok)
+        if not ok:
+            return
+        pop, cw = tr[0][1]
+        eng.check(f"{oname}#rng.population_is_the_edges_in_order", len(pop) == len(edges) and all(tuple(a) == tuple(b) for a, b in zip(pop, edges)))
+        prev, acc = 0, []
+        for i in range(min(len(cw), len(edges))):
+            d = arith("-", cw[i], prev)
+            a, b = edges[i]
+            acc.append(sv_and(compare(">=", d, 0), compare("==", sq(d), dist3sq(vs[a], vs[b]))))
+            prev = cw[i]
+        eng.check(f"{oname}#rng.edge_drawn_with_probability_proportional_to_its_length", len(cw) == len(edges) and sv_and(*acc))
+        lo, hi = tr[1][1]
+        eng.check(f"{oname}#rng.interpolation_parameter_drawn_uniformly_over_0_1", sv_and(compare("==", lo, 0), compare("==", hi, 1)))
+        chosen = _decided_index(eng, tr[0][2], len(edges))
+        eng.check(f"{oname}#rng.chosen_index_decided", len(chosen) == 1)
+        if len(chosen) != 1:
+            return
+        t = tr[1][2]
+        a, b = edges[chosen[0]]
+        okv = _is_vec(res)
+        eng.check(f"{oname}#ensures.returns_a_vector", okv)
+        if okv:
+            eng.check(f"{oname}#ensures.point_is_A_plus_t_times_B_minus_A_on_the_drawn_edge_in_all_three_coordinates", sv_and(*[compare("==", coords(res)[c], arith("+", vs[a][c], arith("*", t, arith("-", vs[b][c], vs[a][c])))) for c in range(3)]))
+            eng.check(f"{oname}#ensures.interpolation_parameter_within_0_1", sv_and(compare("<=", 0, t), compare("<=", t, 1)))
+
+    PATH_CATALOGUE = [
+        ("two unequal edges in space", dict(points=[(0, 0, 0), (1, 0, 0), (1, 5, 2)])),
+        ("steep edge", dict(points=[(0, 0, 0), (0, 0, 10), (1, 0, 10)])),
+        ("two polylines sharing a vertex", dict(polylines=[[(0, 0, 0), (3, 4, 0)], [(3, 4, 12), (3, 4, 0)]])),
+        ("closed triangle", dict(points=[(0, 0, 0), (4, 0, 0), (4, 3, 1), (0, 0, 0)])),
+    ]
+
+    def replay_pa(inputs, clause):
+        import warnings
+
+        warnings.filterwarnings("ignore")
+        from scenic.core.regions import PathRegion
+
+        cases = list(PATH_CATALOGUE)
+        try:
+            edges = [tuple(e) for e in _lit(inputs["edges"])]
+            nv = 1 + max(max(e) for e in edges)
+            vs = [tuple(float(x) for x in inputs[f"v{i}"]) for i in range(nv)]
+            if len(set(vs)) == nv:
+                cases.insert(0, ("counter-model", dict(polylines=[[vs[a], vs[b]] for a, b in edges])))
+        except Exception:
+            pass
+        for name, kw in cases:
+            R = PathRegion(**kw)
+            chains = [kw["points"]] if "points" in kw else kw["polylines"]
+            segs3 = [(tuple(map(float, a)), tuple(map(float, b))) for ch in chains for a, b in zip(ch, ch[1:]) if tuple(a) != tuple(b)]
+            r = _check_real_line_sampler(R, segs3, f"PathRegion({kw})")
+            if r:
+                return r
+        return None
+
+    reg.add(
+        C.Contract(
+            f"{RG}:PathRegion.uniformPointInner",
+            params=dict(self=C.Const(None)),
+            setup=setup_pa,
+            post=post_pa,
+            inline_all=True,
+            replay=replay_pa,
+            bounded=True,
+            note="bounded: edge tables of 1..3 edges over 2..4 vertices (symbolic 3-D coordinates): chains, two chains sharing a vertex, a closed triangle; class invariant of __init__ (edge_lengths[i] = distance of the edge's end points > 0) assumed",
+            properties=("C03",),
+        )
+    )
+
+
+# ===================================================================================================
+# GridRegion: membership and the point table, relative to the index maps verified above (extension)
+#
+# Oracle (class documentation + property statement): a point is in a GridRegion exactly when its nearest grid point is a
+# free cell (grid[ny][nx] == 0); the points that can be drawn are exactly the grid points of the free cells (each once, so
+# that the randrange law of PointSetRegion.uniformPointInner is uniform over the free cells), and every such point is a member.
+
+GRID_SHAPES = [(1, 1), (2, 2), (2, 3)]  # (sizeY, sizeX)
+
+
+def _real_grid_check(grid, Ax, Ay, Bx, By, probes, what_for="both"):
+    """The REAL GridRegion on a concrete grid: point table and membership of probes.  -> None | text"""
+    import warnings
+
+    warnings.filterwarnings("ignore")
+    from scenic.core.regions import GridRegion
+    from scenic.core.vectors import Vector
+
+    if not any(v == 0 for row in grid for v in row):
+        return None
+    G = GridRegion("grid", grid, Ax, Ay, Bx, By)
+    what = f"GridRegion(grid={grid}, Ax={Ax}, Ay={Ay}, Bx={Bx}, By={By})"
+    free = sorted((Ax * i + Bx, Ay * j + By, 0.0) for j, row in enumerate(grid) for i, v in enumerate(row) if v == 0)
+    got = sorted(tuple(float(c) for c in p) for p in G.points)
+    if what_for != "member" and (len(got) != len(free) or any(math.dist(a, b) > 1e-9 for a, b in zip(got, free))):
+        return f"{what}: points that can be drawn = {got}, grid points of the free cells = {free}"
+    if what_for == "table":
+        return None
+    for p in free:
+        if not G.containsPoint(Vector(*p)):
+            return f"{what}: the grid point {p} of a free cell can be drawn but containsPoint says it is not in the region"
+    sy, sx = len(grid), len(grid[0])
+    for x, y in probes:
+        fx, fy = (x - Bx) / Ax, (y - By) / Ay
+        if min(abs(fx - math.floor(fx) - 0.5), abs(fy - math.floor(fy) - 0.5)) < 1e-6:
+            continue  # equidistant from two grid points
+        nx, ny = math.floor(fx + 0.5), math.floor(fy + 0.5)
+        want = 0 <= nx < sx and 0 <= ny < sy and grid[ny][nx] == 0
+        res = bool(G.containsPoint(Vector(x, y, 0)))
+        if res != want:
+            return f"{what}: containsPoint(({x}, {y}, 0)) = {res}; the nearest grid index is ({nx}, {ny}), {'a free cell' if want else 'an obstacle or outside the grid'}"
+    return None
+
+
+def register_grid_membership(reg):
+    def pointset_init(I, self, name, points, kdTree=None, orientation=None, tolerance=1e-6):
+        pts = [tuple(I.iterate(p)) for p in I.iterate(points)]
+        if not pts:
+            I.raise_("IndexError", "tuple index out of range")
+        init_samplable(self)
+        rows = [list(p) + [0.0] if len(p) == 2 else list(p) for p in pts]
+        self.fields.update(name=name, orientation=orientation, tolerance=tolerance, points=MS.NDArr((len(rows), 3), rows))
+        return None
+
+    reg.models[f"{RG}:PointSetRegion.__init__"] = pointset_init
+    reg.trust("PointSetRegion.__init__ (super call)", "stub: PointSetRegion.__init__(name, points) stores the points as an (n, 3) array in the order given, appending z = 0 to 2-D points; an empty list is rejected with IndexError (KD-tree set-up not modelled)")
+
+    def mk(I, with_point=True):
+        eng = I.eng
+        sy, sx = GRID_SHAPES[eng.choose(len(GRID_SHAPES), "grid shape")]
+        eng.input_syms.append(("shape", C.Const(None), [sy, sx]))
+        cells = [[eng.fresh_int(f"grid.{j}.{i}") for i in range(sx)] for j in range(sy)]
+        for row in cells:
+            for v in row:
+                eng.assume(sv_or(compare("==", v, 0), compare("==", v, 1)))  # documented: 0s and 1s
+        for j in range(sy):
+            for i in range(sx):
+                eng.input_syms.append((f"grid.{j}.{i}", C.Int(), cells[j][i]))
+        v = {n: eng.fresh_real(n) for n in ("Ax", "Ay", "Bx", "By")}
+        eng.assume(sv_and(compare(">", v["Ax"], 0), compare(">", v["Ay"], 0)))
+        for n in v:
+            eng.input_syms.append((n, C.Real(), v[n]))
+        return sy, sx, cells, v
+
+    near = lambda f, n: sv_and(compare("<=", arith("-", f, n), 0.5), compare("<=", arith("-", n, f), 0.5))
+    strictly = lambda f, n: sv_and(compare("<", arith("-", f, n), 0.5), compare("<", arith("-", n, f), 0.5))
+
+    # ---------------------------------------------------------------- containsPoint
+    def setup_c(sampled):
+        def setup(I, env):
+            eng = I.eng
+            sy, sx, cells, v = mk(I)
+            S = PObj(RC("GridRegion"), tag="self")
+            init_samplable(S)
+            S.fields.update(grid=MS.NDArr((sy, sx), [list(r) for r in cells]), sizeX=sx, sizeY=sy, orientation=None, name="grid", **v)
+            if sampled:
+                # a point that can be drawn: the grid point of a free cell (contract of __init__ below), at the height of the point table
+                k = eng.choose(sy * sx, "free cell whose grid point was drawn")  # one fork per cell: keeps the arithmetic linear
+                gx, gy = k % sx, k // sx
+                eng.assume(compare("==", cells[gy][gx], 0))
+                eng.input_syms.append(("cell", C.Const(None), [gx, gy]))
+                p = (arith("+", arith("*", v["Ax"], gx), v["Bx"]), arith("+", arith("*", v["Ay"], gy), v["By"]), 0.0)
+            else:
+                p = tuple(eng.fresh_real(f"p.{k}") for k in "xyz")
+                eng.input_syms.append(("p", C.TupleOf(C.Real(), C.Real(), C.Real()), p))
+            env.vars.update(self=S, point=make_vector(*p), _p=p, _cells=cells, _v=v, _shape=(sy, sx))
+
+        return setup
+
+    def post_c(sampled):
+        oname = "regions.GridRegion.containsPoint"
+
+        def post(I, env, outcome):
+            eng = I.eng
+            if outcome[0] != "return":
+                return
+            res, p, cells, v, (sy, sx) = outcome[1], env.vars["_p"], env.vars["_cells"], env.vars["_v"], env.vars["_shape"]
+            ok = isinstance(res, (bool, SV))
+            eng.check(f"{oname}#ensures.returns_a_truth_value", ok)
+            if not ok:
+                return
+            if sampled:
+                eng.check(f"{oname}#ensures.the_grid_point_of_a_free_cell_is_a_member", res)
+                return
+            fx = arith("/", arith("-", p[0], v["Bx"]), v["Ax"])
+            fy = arith("/", arith("-", p[1], v["By"]), v["Ay"])
+            free_near = sv_or(*[sv_and(near(fx, i), near(fy, j), compare("==", cells[j][i], 0)) for j in range(sy) for i in range(sx)])
+            eng.check(f"{oname}#ensures.member_only_if_a_nearest_grid_point_is_a_free_cell", sv_implies(res, free_near))
+            free_strict = sv_or(*[sv_and(strictly(fx, i), strictly(fy, j), compare("==", cells[j][i], 0)) for j in range(sy) for i in range(sx)])
+            eng.check(f"{oname}#ensures.member_if_the_strictly_nearest_grid_point_is_a_free_cell", sv_implies(free_strict, res))
+
+        return post
+
+    def replay_c(inputs, clause, what_for="member"):
+        try:
+            sy, sx = _lit(inputs["shape"])
+            grid = [[int(inputs[f"grid.{j}.{i}"]) for i in range(sx)] for j in range(sy)]
+            Ax, Ay, Bx, By = (float(inputs[k]) for k in ("Ax", "Ay", "Bx", "By"))
+        except Exception:
+            grid, (Ax, Ay, Bx, By) = [[0, 1, 0], [1, 0, 0]], (2.0, 0.5, -1.0, 3.0)
+        sy, sx = len(grid), len(grid[0])
+        probes = [(Ax * (i + dx) + Bx, Ay * (j + dy) + By) for i in range(-1, sx + 1) for j in range(-1, sy + 1) for dx, dy in ((0, 0), (0.3, -0.4), (-0.45, 0.45), (0.49, 0.1))]
+        if "p" in inputs:
+            try:
+                probes.insert(0, (float(inputs["p"][0]), float(inputs["p"][1])))
+            except Exception:
+                pass
+        for g, a in ((grid, (Ax, Ay, Bx, By)), ([[0, 1, 0], [1, 0, 0]], (2.0, 0.5, -1.0, 3.0))):
+            if len(g[0]) != sx or len(g) != sy:
+                pr = [(a[0] * (i + dx) + a[2], a[1] * (j + dy) + a[3]) for i in range(-1, 4) for j in range(-1, 3) for dx, dy in ((0, 0), (0.3, -0.4), (-0.45, 0.45))]
+            else:
+                pr = probes
+            r = _real_grid_check(g, *a, pr, what_for=what_for)
+            if r:
+                return r
+        return None
+
+    replay_i = lambda inputs, clause: replay_c(inputs, clause, what_for="table")
+
+    for sampled in (False, True):
+        c = C.Contract(
+            f"{RG}:GridRegion.containsPoint",
+            params=dict(self=C.Const(None), point=C.Const(None)),
+            setup=setup_c(sampled),
+            post=post_c(sampled),
+            inline_all=True,
+            replay=replay_c,
+            bounded=True,
+            note="bounded: grids of 1x1, 2x2 and 2x3 cells (symbolic 0/1 entries, spacings, offsets, probe point); pointToGrid inlined (its own contract covers symbolic sizes)",
+            properties=("C03",),
+        )
+        c.env = LazyEnv()
+        reg.add(c, key=f"{RG}:GridRegion.containsPoint" + ("[drawn point]" if sampled else ""))
+
+    # ---------------------------------------------------------------- __init__: the point table
+    def setup_i(I, env):
+        sy, sx, cells, v = mk(I)
+        S = PObj(RC("GridRegion"), tag="self")
+        env.vars.update(self=S, name="grid", grid=PList([PList(list(r)) for r in cells]), orientation=None, _cells=cells, _v=v, _shape=(sy, sx), **v)
+
+    def post_i(I, env, outcome):
+        eng = I.eng
+        oname = "regions.GridRegion.__init__"
+        cells, v, (sy, sx) = env.vars["_cells"], env.vars["_v"], env.vars["_shape"]
+        # on this path every cell has been decided by numpy.where (or the grid is all obstacles)
+        if outcome[0] == "raise":
+            eng.check(f"{oname}#raises.only_if_the_grid_has_no_free_cell", sv_and(*[sv_not(compare("==", cells[j][i], 0)) for j in range(sy) for i in range(sx)]))
+            return
+        S = env.vars["self"]
+        pts = S.fields.get("points")
+        ok = isinstance(pts, MS.NDArr) and len(pts.shape) == 2 and pts.shape[1] == 3
+        eng.check(f"{oname}#ensures.point_table_is_an_array_of_3d_points", ok)
+        if not ok:
+            return
+        eng.check(f"{oname}#ensures.sizes_are_the_grid_shape", S.fields.get("sizeX") == sx and S.fields.get("sizeY") == sy)
+        gp = lambda i, j: (arith("+", arith("*", v["Ax"], i), v["Bx"]), arith("+", arith("*", v["Ay"], j), v["By"]), 0.0)
+        is_pt = lambda row, i, j: sv_and(*[compare("==", a, b) for a, b in zip(row, gp(i, j))])
+        # every drawable point is the grid point of a free cell ...
+        eng.check(f"{oname}#ensures.every_point_is_the_grid_point_of_a_free_cell", sv_and(*[sv_or(*[sv_and(is_pt(row, i, j), compare("==", cells[j][i], 0)) for j in range(sy) for i in range(sx)]) for row in pts.data]))
+        # ... and every free cell contributes exactly one point (uniform over the free cells under the randrange law)
+        nfree = 0
+        for j in range(sy):
+            for i in range(sx):
+                nfree = arith("+", nfree, SV(z3.If(tobool(compare("==", cells[j][i], 0)), z3.IntVal(1), z3.IntVal(0))))
+        eng.check(f"{oname}#ensures.one_point_per_free_cell", compare("==", nfree, pts.shape[0]))
+        eng.check(f"{oname}#ensures.every_free_cell_has_its_grid_point_in_the_table", sv_and(*[sv_implies(compare("==", cells[j][i], 0), sv_or(*[is_pt(row, i, j) for row in pts.data])) for j in range(sy) for i in range(sx)]))
+
+    reg.add(
+        C.Contract(
+            f"{RG}:GridRegion.__init__",
+            params=dict(self=C.Const(None), name=C.Const(None), grid=C.Const(None), Ax=C.Const(None), Ay=C.Const(None), Bx=C.Const(None), By=C.Const(None), orientation=C.Const(None)),
+            setup=setup_i,
+            post=post_i,
+            raises=[C.Raises("IndexError", mode="may")],
+            inline_all=True,
+            replay=replay_i,
+            bounded=True,
+            note="bounded: grids of 1x1, 2x2 and 2x3 cells (symbolic 0/1 entries); relative to N-where and the PointSetRegion.__init__ stub; together with PointSetRegion.uniformPointInner (randrange over the table) the draw is uniform over the free cells",
+            properties=("C03",),
+        )
     )
